@@ -142,6 +142,31 @@ pub fn pair_field_inputs(base: &Base) -> Vec<Input> {
     out
 }
 
+/// Every string of the file (names, user-data text) overwritten in place with byte sequences that are not UTF-8.
+pub fn string_inputs(base: &Base) -> Vec<Input> {
+    let mut out = Vec::new();
+    let fs = &base.map.fields;
+    for k in 1..fs.len() {
+        let (l, s) = (&fs[k - 1], &fs[k]);
+        if s.kind != Kind::Payload || l.kind != Kind::Len || l.name != format!("{}.len", s.name) || s.width == 0 {
+            continue;
+        }
+        let variants: [(&str, &[u8]); 6] = [("ff", &[0xff]), ("overlong-nul", &[0xc0, 0x80]), ("lone-surrogate", &[0xed, 0xa0, 0x80]), ("cut-multibyte", &[0xe6]), ("continuation-only", &[0x80, 0xbf]), ("beyond-u+10ffff", &[0xf4, 0x90, 0x80, 0x80])];
+        for (vn, pat) in variants {
+            let mut b = base.bytes.clone();
+            // the pattern is written at the END of the string (a cut sequence must end it), the rest stays
+            let n = pat.len().min(s.width);
+            let at = s.off + s.width - n;
+            b[at..at + n].copy_from_slice(&pat[..n]);
+            if std::str::from_utf8(&b[s.off..s.off + s.width]).is_ok() {
+                continue;
+            }
+            out.push(Input { operator: "string:invalid-utf8".into(), label: format!("{}: {} ends in {} ({:02x?})", base.name, s.name, vn, &pat[..n]), bytes: b });
+        }
+    }
+    out
+}
+
 pub fn multi_field_inputs(base: &Base, rng: &mut Rng, n: usize) -> Vec<Input> {
     let fields: Vec<_> = base.map.fields.iter().filter(|f| f.kind.structural() && f.width <= 4).collect();
     let mut out = Vec::new();
